@@ -468,6 +468,7 @@ def run(v, tier, seed, replay):
     sequential(v, 10)
 
     v.cov["exhaustive"] = True
+    real_threads(v, seed, thorough)
     v.cov["bounds"] = ("LFCache exhaustive (spurious CAS failures included): 2 threads x 2 calls, N=%s%s; "
                        "SeqCache: all insert/get strings of length 10, N=1..4, both variants" % (
                            "1..4" if thorough else "1..3",
@@ -483,6 +484,37 @@ def run(v, tier, seed, replay):
     v.notes.append("a spurious failure of compare_exchange_weak is forced in the real code by spoiling the expected value's counter in the yield hook "
                    "just before the CAS; the CAS then fails and reloads the unchanged head, which is the specified effect")
     return LEVEL
+
+
+def real_threads(v, seed, thorough):
+    """real threads on the shared variant: (1) ThreadSanitizer build, one inserting and one fetching thread - the memory order of
+    the publishing compare-and-swap (outside what the sequentially consistent coroutine scheduler can see); (2) plain build, six
+    threads doing both - every value out at most once, nothing out that was not put in, drain = inserted and not fetched."""
+    exe_t = vlib.build_harness("lfcache_threads", "gtsan", link_lib=False)
+    exe_p = vlib.build_harness("lfcache_threads", "plain", link_lib=False)
+    runs = 0
+    for k in range(2 if not thorough else 6):
+        p = vlib.sh([exe_t, "2", "300000", str(seed % 1000 + k), "pc"], timeout=600, env={"TSAN_OPTIONS": "halt_on_error=0:exitcode=66"})
+        if "WARNING: ThreadSanitizer" in p.stderr:
+            # must repeat
+            p2 = vlib.sh([exe_t, "2", "300000", str(seed % 1000 + k), "pc"], timeout=600, env={"TSAN_OPTIONS": "halt_on_error=0:exitcode=66"})
+            if "WARNING: ThreadSanitizer" in p2.stderr:
+                where = [l.strip() for l in p.stderr.splitlines() if l.strip().startswith("#0")][:2]
+                v.violation("threads/tsan/data-race", "one inserting and one fetching thread on the shared cache: ThreadSanitizer reports a data race %s" % where, {"stderr": p.stderr[-2500:]})
+                break
+        elif p.returncode != 0 or "DONE" not in p.stdout:
+            v.violation("threads/%s" % ("crash" if p.returncode < 0 else "conservation"), "producer/consumer run on the shared cache: rc=%s %s %s" % (p.returncode, p.stdout.strip()[-200:], p.stderr[-300:]), None)
+            break
+        runs += 1
+    for k in range(2 if not thorough else 8):
+        p = vlib.sh([exe_p, "6", "200000", str(seed % 1000 + 10 + k)], timeout=600)
+        if p.returncode != 0 or "DONE" not in p.stdout:
+            v.violation("threads/%s" % ("crash" if p.returncode < 0 else "conservation"),
+                        "six threads inserting and fetching on the shared cache: rc=%s %s (DONE inserted fetched drained bad) %s" % (p.returncode, p.stdout.strip()[-200:], p.stderr[-300:]), None)
+            break
+        runs += 1
+    v.cov["real_thread_runs"] = runs
+    v.add("traces_validated_against_impl", runs)
 
 
 def handle_design_violation(v, exe, r, dump, n, nt, ops):
